@@ -24,13 +24,13 @@ which = sys.argv[1:]
 TXT = {
  "C16": dict(
    level="fault_enumeration",
-   text="Seeded deterministic simulation of the real write path (WriteTool.execute, atomic_write_octave, CLI write/normalize -o/seal -o) over a real tmpfs sandbox with every file operation interposed. Scenarios include unusual targets (directory, hard-linked, read-only, set-id modes, NAME_MAX names), debris of crashed writers, CRLF/BOM/undecodable files and content from a few bytes to 146 KB. For each swept scenario EVERY operation boundary the code reaches is visited as kill, power-loss and async-exception point and with every errno its class admits (one-shot and sticky), then pairs inside the recovery window, then seeded random multi-fault and two-writer runs. The kill model is cross-validated against real SIGKILLed child processes and the seam against seam-less executions on every run. It is enumeration over the operations the current code performs per scenario plus sampling over scenarios; not a proof.",
+   text="Seeded deterministic simulation of the real write path (WriteTool.execute, atomic_write_octave, CLI write/normalize -o/seal -o) over a real tmpfs sandbox with every file operation interposed. Scenarios include unusual targets (directory, hard-linked, read-only, set-id modes, NAME_MAX names), debris of crashed writers, CRLF/BOM/undecodable files and content from a few bytes to 146 KB. For each swept scenario EVERY operation boundary the code reaches is visited as kill, power-loss and async-exception point and with every errno its class admits (one-shot and sticky), then pairs inside the recovery window, then seeded random multi-fault and two-writer runs; after every one-shot errno of the single-fault sweep the same process serves one more healthy write (state a failed call leaves behind in the process). Content includes characters that text layers translate (lone CR, LS/PS, NEL, NUL, BOM), multi-byte characters across every slice boundary and documents whose encoding is exactly at the usual size thresholds. The kill model is cross-validated against real SIGKILLed child processes and the seam against seam-less executions on every run. It is enumeration over the operations the current code performs per scenario plus sampling over scenarios; not a proof.",
    note="Trusted: the interposer sees every file operation (cross-checked by a sys.addaudithook observer on every run), the in-process kill model (self-checked: unwinding changes nothing on disk), and the power-loss durability MODEL (ordered metadata, data durable up to last fsync). MCP server dispatch/transport are not exercised.",
    tech="deterministic simulation: interposed file-operation seam + planned single/pair fault sweep + seeded random fault/schedule search, oracle on disk state from outside",
    ref="3"),
  "C17": dict(
    level="exploration",
-   text="Seeded search over (a) sequential histories of write calls and external modifications checked step by step against a register model, (b) interleavings of 2-3 writer processes (real threads parked at every interposed file operation, one baton, schedule from the seed) with the CAS invariant evaluated by the simulator at the instant each os.replace is executed, (c) concurrent/duplicated/reordered tool calls inside one process under a deterministic asyncio loop. In addition two sub-spaces the quantifier names are swept completely: every history over {content, changes, normalize, corrections_only, external modification} x base_hash {none, current, stale, future} up to length 5 in the thorough tier (as far as its time cap reaches; the evidence file says whether the sweep was complete), and over an extended 22-symbol alphabet (plus undecodable content, the digest of the empty text, the current text re-sent, the previous call re-sent) up to length 3 (quick) / 4 (thorough), and every interleaving of 45 writer pairs (9 writer kinds incl. a non-cooperating in-place editor) at read/lock/replace granularity (depth-first over the schedule tape). Everything else is seeded sampling.",
+   text="Seeded search over (a) sequential histories of write calls and external modifications checked step by step against a register model, (b) interleavings of 2-3 writer processes (real threads parked at every interposed file operation, one baton, schedule from the seed) with the CAS invariant evaluated by the simulator at the instant each os.replace is executed, (c) concurrent/duplicated/reordered tool calls inside one process under a deterministic asyncio loop. In addition two sub-spaces the quantifier names are swept completely: every history over {content, changes, normalize, corrections_only, external modification} x base_hash {none, current, stale, future} up to length 5 in the thorough tier (as far as its time cap reaches; the evidence file says whether the sweep was complete), and over an extended 22-symbol alphabet (plus undecodable content, the digest of the empty text, the current text re-sent, the previous call re-sent) up to length 3 (quick) / 4 (thorough), and every interleaving of 45 writer pairs (9 writer kinds incl. a non-cooperating in-place editor; the two writers name the file by different spellings of its path) plus 15 pairs of creators of a file that does not exist yet, at read/lock/replace granularity (depth-first over the schedule tape). A fault sweep (L1f) repeats one call carrying a mismatching base_hash with every operation it performs failing in turn (every admissible errno; one-shot, sticky, sticky for that operation on that path). Everything else is seeded sampling.",
    note="Trusted: the scheduler is the only source of interleaving (one thread runs at a time), the interposer sees every file operation (audit-hook cross-check), flock is modelled as a blocking point. External programs that do not use the tool are outside the quantifier except as atomic steps of sequential histories.",
    tech="deterministic simulation: baton-scheduled writer processes at file-operation granularity + reference register model + seeded schedule search",
    ref="4"),
